@@ -40,7 +40,7 @@ PRE, DEV = 0, 1
 class VThread:
   __slots__ = ('tid', 'name', 'sem', 'real', 'state', 'pred', 'deadline',
                'timed_out', 'yielded', 'service', 'exc', 'target', 'nobj',
-               'what', 'sleeping', 'pyobj', 'result', 'uid', 'nchild', 'vc')
+               'what', 'sleeping', 'pyobj', 'result', 'uid', 'nchild', 'vc', 'spin')
 
   def __init__(self, tid, name, target):
     self.tid, self.name, self.target = tid, name, target
@@ -61,6 +61,7 @@ class VThread:
     self.uid = ''
     self.nchild = 0
     self.vc = {}
+    self.spin = {}
 
   def __repr__(self):
     return f'<T{self.tid} {self.name} {self.state} {self.what}>'
@@ -95,12 +96,15 @@ class Scheduler:
   """One scheduler object == one execution."""
 
   TICK = 5.0
+  SPIN_LIMIT = 40
 
   def __init__(self, prefix=(), *, mode='preempt', max_steps=20000,
                max_clock=3.0e4, keep_events=False, snapshot=None,
-               rr_default=False):
+               tick=None):
     self.prefix = list(prefix)
     self.mode = mode              # 'preempt' | 'delay'
+    if tick:
+      self.TICK = tick
     self.max_steps = max_steps
     self.max_clock = max_clock
     self.threads = []
@@ -265,6 +269,8 @@ class Scheduler:
     for t in self.threads:
       if t is not vt:
         t.yielded = False
+        if t.spin:
+          t.spin.clear()
 
   _READS = frozenset(('rd', 'q-empty'))
 
@@ -307,6 +313,14 @@ class Scheduler:
     self._check_alive()
     cur = self.current
     self._event(cur, kind, obj)
+    # busy-wait detection: a thread that passes the same point again and again
+    # while nobody else takes a step is polling without sleeping; under any
+    # fair scheduler the others would run, so the point becomes a yield.
+    key = cur.what
+    n = cur.spin.get(key, 0) + 1
+    cur.spin[key] = n
+    if n > self.SPIN_LIMIT:
+      cur.yielded = True
     nxt = self._pick(cur=cur, kind=kind)
     self._switch(cur, nxt)
 
